@@ -74,6 +74,30 @@ func (i *insertOnUpdateExecutor) ExecContext(ctx context.Context, f exec.Callbac
 		return nil, err
 	}
 
+	if len(beforeImage.Rows) > 0 && len(afterImage.Rows) > len(beforeImage.Rows) {
+		// some rows existed (updated) and some did not (inserted): record two image pairs, otherwise the whole statement
+		// counts as an UPDATE and a rollback never removes the rows it inserted
+		existed := make(map[string]bool, len(beforeImage.Rows))
+		for k := range beforeImage.Rows {
+			existed[primaryKeyText(&beforeImage.Rows[k])] = true
+		}
+		updated := &types.RecordImage{TableName: afterImage.TableName, TableMeta: afterImage.TableMeta, SQLType: types.SQLTypeUpdate}
+		inserted := &types.RecordImage{TableName: afterImage.TableName, TableMeta: afterImage.TableMeta, SQLType: types.SQLTypeInsert}
+		for k := range afterImage.Rows {
+			if existed[primaryKeyText(&afterImage.Rows[k])] {
+				updated.Rows = append(updated.Rows, afterImage.Rows[k])
+			} else {
+				inserted.Rows = append(inserted.Rows, afterImage.Rows[k])
+			}
+		}
+		beforeImage.SQLType = types.SQLTypeUpdate
+		i.execContext.TxCtx.RoundImages.AppendBeofreImage(beforeImage)
+		i.execContext.TxCtx.RoundImages.AppendAfterImage(updated)
+		i.execContext.TxCtx.RoundImages.AppendBeofreImage(&types.RecordImage{TableName: afterImage.TableName, TableMeta: afterImage.TableMeta, SQLType: types.SQLTypeInsert})
+		i.execContext.TxCtx.RoundImages.AppendAfterImage(inserted)
+		return res, nil
+	}
+
 	if len(beforeImage.Rows) > 0 {
 		beforeImage.SQLType = types.SQLTypeUpdate
 		afterImage.SQLType = types.SQLTypeUpdate
@@ -85,6 +109,19 @@ func (i *insertOnUpdateExecutor) ExecContext(ctx context.Context, f exec.Callbac
 	i.execContext.TxCtx.RoundImages.AppendBeofreImage(beforeImage)
 	i.execContext.TxCtx.RoundImages.AppendAfterImage(afterImage)
 	return res, nil
+}
+
+// primaryKeyText identifies a row image by the values of its primary key columns
+func primaryKeyText(row *types.RowImage) string {
+	var sb strings.Builder
+	for _, col := range row.PrimaryKeys(row.Columns) {
+		if b, ok := col.Value.([]byte); ok {
+			fmt.Fprintf(&sb, "%s=%s;", strings.ToLower(col.ColumnName), b)
+		} else {
+			fmt.Fprintf(&sb, "%s=%v;", strings.ToLower(col.ColumnName), col.Value)
+		}
+	}
+	return sb.String()
 }
 
 // beforeImage build before image
